@@ -13,6 +13,7 @@ import GlotaranProofs.Lemmas.C03
 import GlotaranProofs.Lemmas.C03Linked
 import GlotaranProofs.Lemmas.C03Full
 import GlotaranProofs.Lemmas.C03Legacy
+import GlotaranProofs.Lemmas.C03Steps
 namespace Glotaran.C03
 open Glotaran.LinAlg Glotaran.C02
 
@@ -647,6 +648,133 @@ example :
           { label := "b", globalAxis := [3, 2], data := [[0, -2], [3, 1], [-1, 4]], weight := none, scale := some 2,
             mcs := [⟨⟨["c"], .d2 [[1], [0], [1]]⟩, none⟩], gmcs := [] }] }
     (linkedResults {} g).map (List.map (·.clps)) ≠ (linkedResultsOwn {} g).map (List.map (·.clps)) := by
+  decide +kernel
+
+/-! ### 11. the result assembly regenerated from the source text equals the model
+
+`Generated.tables` (GlotaranModel/Generated/C03Steps.lean) is rewritten on every run from the source of
+`EstimationProviderUnlinked.get_result`, `EstimationProviderLinked.get_result`, `OptimizationGroup.create_result_data`,
+`OptimizationGroup.add_weight_to_result_data` and the data loop of `Optimizer.create_result`; `Steps.genUnlinked`,
+`Steps.genLinked`, `Steps.genResults` (GlotaranModel/C03Steps.lean) interpret it.  `stored` is the dimension order
+in which a dataset's `data` variable is stored, `ownW` whether the dataset brings its own `weight` variable. -/
+open Glotaran.C03.Steps in
+/-- **`create_result_data` + `add_weight_to_result_data` as written in the source** turn what `get_result` hands over
+    (clp labels, clps, residual with dims (model, global) — `hmg` —) into the variables of `finish`: `weighted_residual` is the handed
+    over residual, `residual` is it divided by the data provider's weight, `fitted_data = data − residual`, the `weight`
+    variable is the weight in the data's own dimension order, `dataset_scale` the dataset's scale (1 when absent) —
+    for either storage order, with or without weight, own or model weight. -/
+theorem generated_assemble_eq_model (stored : Orient) (ownW : Bool) (d : Dataset) (est : EstOut)
+    (hmg : est.residualOrient = .mg) :
+    assemble Generated.createStmts Generated.addWeightStmts stored ownW d est =
+      some ⟨finish d est.clpLabels est.clps est.residual, d.weight, some (d.scale.getD 1)⟩ :=
+  assemble_generated stored ownW d est hmg
+
+open Glotaran.C03.Steps in
+example : (assemble Generated.createStmts Generated.addWeightStmts .gm false
+    { label := "a", globalAxis := [0, 1], data := [[1, 2], [3, 4]], weight := some [[2, 4], [1, 3]], scale := some 2,
+      mcs := [], gmcs := [] } ⟨["c"], [[1], [2]], .mg, [[2, 4], [5, 9]]⟩).map (fun a => (a.result.residual, a.result.weighted, a.weightVar)) =
+    some ([[1, 1], [5, 3]], some [[2, 4], [5, 9]], some [[2, 4], [1, 3]]) := by decide +kernel
+
+open Glotaran.C03.Steps in
+/-- **Unlinked dataset, with or without a global model**: the regenerated `get_result` → `create_result_data` path
+    computes `unlinkedResult` (and reports the weight and the dataset scale). -/
+theorem generated_result_eq_model_unlinked (stored : Orient) (ownW : Bool) (mi : ModelItems) (s : Solver) (d : Dataset) :
+    genUnlinked Generated.tables stored ownW mi s d =
+      (unlinkedResult mi s d).map (fun r => ⟨r, d.weight, some (d.scale.getD 1)⟩) :=
+  genUnlinked_generated stored ownW mi s d
+
+open Glotaran.C03.Steps in
+example : (genUnlinked Generated.tables .gm false exMi .vp exDs).isSome = true ∧
+    (genUnlinked Generated.tables .gm false exMi .vp exDs).map (·.result) = unlinkedResult exMi .vp exDs := by
+  rw [generated_result_eq_model_unlinked]
+  have hs : (unlinkedResult exMi .vp exDs).isSome = true := by decide +kernel
+  obtain ⟨r, hr⟩ := Option.isSome_iff_exists.mp hs
+  rw [hr]; exact ⟨rfl, rfl⟩
+
+open Glotaran.C03.Steps in
+/-- **Full model, spelled out**: the flattened (global-major) residual is cut into one chunk per global index and laid out
+    as columns of a (model × global) array, the flattened clps into one row per global clp label. -/
+theorem generated_result_eq_model_full (stored : Orient) (ownW : Bool) (mi : ModelItems) (s : Solver) (d : Dataset)
+    (lm gm : LMat) (a : Mat) (y : Vec) (cr : Vec × Vec) (hg : d.gmcs ≠ [])
+    (hp : fullModelProblem d = some (a, y)) (hlm : datasetMatrix d.mcs = some lm) (hgm : datasetMatrix d.gmcs = some gm)
+    (hs : solveLS s a y = some cr) :
+    genUnlinked Generated.tables stored ownW mi s d =
+      some ⟨finish d lm.labels (chunk lm.labels.length gm.labels.length cr.1)
+              (ofColumns d.nModel (chunk d.nModel d.nGlobal cr.2)), d.weight, some (d.scale.getD 1)⟩ := by
+  rw [genUnlinked_generated]
+  have hne : d.gmcs.isEmpty = false := by cases h : d.gmcs with | nil => exact absurd h hg | cons _ _ => rfl
+  simp [unlinkedResult, hne, hp, hlm, hgm, hs]
+
+open Glotaran.C03.Steps in
+example : (genUnlinked Generated.tables .mg true {} .vp exFull).map (fun a => a.result.fitted) =
+    some [[185/137, 194/137, 415/137], [649/115, 108/23, 753/115]] := by
+  rw [generated_result_eq_model_unlinked]; decide +kernel
+
+open Glotaran.C03.Steps in
+/-- **Linked group**: the regenerated `EstimationProviderLinked.get_result` (parts collected over the aligned axis
+    for the indices the dataset is a member of, clps picked by label, residual block cut by the model-axis sizes of
+    the members before it, both re-ordered by the argsort of the dataset's own global indices) followed by
+    `create_result_data` computes `linkedResultsOwn`, dataset by dataset, and reports every dataset's weight and
+    scale.  Hypothesis: no dataset repeats a value on its global axis (a coordinate). -/
+theorem generated_result_eq_model_linked (stored : String → Orient) (ownW : String → Bool) (mi : ModelItems) (g : Group)
+    (haxes : ∀ d ∈ g.datasets, d.globalAxis.Nodup) :
+    (genLinked Generated.tables stored ownW mi g).map (List.map (·.result)) = linkedResultsOwn mi g ∧
+    (genLinked Generated.tables stored ownW mi g).map (List.map (fun a => (a.weightVar, a.scaleAttr))) =
+      (linkedResultsOwn mi g).map (fun _ => g.datasets.map (fun d => (d.weight, some (d.scale.getD 1)))) := by
+  have hn : ∀ aligned, alignAxes (g.datasets.map (·.globalAxis)) g.tol g.method = some aligned →
+      ∀ al ∈ aligned, al.Nodup := fun aligned hal =>
+    alignAxes_nodup _ _ _ aligned hal (by
+      intro a ha
+      obtain ⟨d, hd, rfl⟩ := List.mem_map.mp ha
+      exact haxes d hd)
+  rw [genLinked_generated stored ownW mi g hn]
+  refine ⟨linkedAssembled_result mi g, ?_⟩
+  unfold linkedAssembled linkedResultsOwn
+  cases hal : alignAxes (g.datasets.map (·.globalAxis)) g.tol g.method with
+  | none => rfl
+  | some aligned =>
+    cases linkedProblems mi g with
+    | none => rfl
+    | some ap =>
+      obtain ⟨axis, ps⟩ := ap
+      simp only []
+      cases ps.mapM (fun p => (solveLS g.solver p.reduced.m p.data).map (fun cr => (p, cr))) with
+      | none => rfl
+      | some sols =>
+        have hlen : aligned.length = g.datasets.length := by
+          have := congrArg List.length (alignAxes_lengths _ _ _ _ hal)
+          simpa using this
+        simp only [Option.map_some, List.map_map, Option.some.injEq]
+        have : g.datasets = (g.datasets.zip aligned).map (·.1) := by
+          rw [List.map_fst_zip (by omega)]
+        conv_rhs => rw [this]
+        simp [List.map_map, Function.comp_def]
+
+open Glotaran.C03.Steps in
+/-- the descending-axes group of section 8 (regression witness of D27), both datasets stored as (global, model) -/
+example :
+    let g : Group :=
+      { linked := true, solver := .vp, tol := 0, method := .nearest,
+        datasets := [
+          { label := "a", globalAxis := [2, 1], data := [[0, -2], [3, 1], [-1, 4]], weight := none, scale := none,
+            mcs := [⟨⟨["c"], .d2 [[1], [1], [2]]⟩, none⟩], gmcs := [] },
+          { label := "b", globalAxis := [3, 2], data := [[0, -2], [3, 1], [-1, 4]], weight := none, scale := some 2,
+            mcs := [⟨⟨["c"], .d2 [[1], [0], [1]]⟩, none⟩], gmcs := [] }] }
+    (genLinked Generated.tables (fun _ => .gm) (fun _ => false) {} g).map (List.map (fun a => (a.result.clps, a.scaleAttr))) =
+      some [([[5/14], [7/6]], some 1), ([[-1/4], [5/14]], some 2)] := by
+  decide +kernel
+
+open Glotaran.C03.Steps in
+/-- **All groups, as `Optimizer.create_result` walks them** (`for group in groups: group.calculate(current parameters);
+    data.update(group.create_result_data())`): the regenerated path computes `resultsOwn` — what the driver's
+    `results` line executes. -/
+theorem generated_results_eq_model (stored : String → Orient) (ownW : String → Bool) (mi : ModelItems) (gs : List Group)
+    (haxes : ∀ g ∈ gs, g.linked = true → ∀ d ∈ g.datasets, d.globalAxis.Nodup) :
+    (genResults Generated.tables stored ownW mi gs).map (List.map (·.result)) = resultsOwn mi gs :=
+  genResults_generated stored ownW mi gs haxes
+
+open Glotaran.C03.Steps in
+example : (genResults Generated.tables (fun _ => .mg) (fun _ => false) {} [exGroup "a" "b"]).isSome = true := by
   decide +kernel
 
 end Glotaran.C03
